@@ -14,13 +14,14 @@ var modSubsets = []string{"vod", "", "v", "o", "d", "vo", "vd", "od"}
 
 // e1Batch describes a batch of sequential histories for one property.
 type e1Batch struct {
-	Profiles  []string
-	Histories int
-	Steps     int
-	MaxConns  int
-	MaxSess   int
-	Mods      []string
-	Census    bool
+	Profiles          []string
+	Histories         int
+	Steps             int
+	MaxConns          int
+	MaxSess           int
+	Mods              []string
+	Census            bool
+	ProbeAfterRefusal float64
 	// Nontrivial decides whether a history counts for distinct_nontrivial.
 	Nontrivial func(h e1.HistorySummary) bool
 }
@@ -33,15 +34,16 @@ func (b e1Batch) configs(seed int64) []e1.Config {
 	}
 	for i := 0; i < b.Histories; i++ {
 		out = append(out, e1.Config{
-			Seed:       seed*1_000_003 + int64(i)*7919 + 17,
-			Steps:      b.Steps,
-			MaxConns:   b.MaxConns,
-			MaxSess:    b.MaxSess,
-			Mods:       mods[i%len(mods)],
-			Profile:    b.Profiles[i%len(b.Profiles)],
-			CheckEvery: 1 + (i*3)%10,
-			Census:     b.Census,
-			Avoid:      avoidList(),
+			Seed:              seed*1_000_003 + int64(i)*7919 + 17,
+			Steps:             b.Steps,
+			MaxConns:          b.MaxConns,
+			MaxSess:           b.MaxSess,
+			Mods:              mods[i%len(mods)],
+			Profile:           b.Profiles[i%len(b.Profiles)],
+			CheckEvery:        1 + (i*3)%10,
+			Census:            b.Census,
+			ProbeAfterRefusal: b.ProbeAfterRefusal,
+			Avoid:             avoidList(),
 		})
 	}
 	return out
@@ -149,7 +151,7 @@ func init() {
 			"at least 3 members were in one session, accepted changes of at least 3 state classes occurred and at least one view comparison ran",
 			func(s *e1.Stats) bool { return s.MaxMembers >= 3 && len(s.ClassesChanged) >= 3 && s.ViewCompares > 0 })
 		partConcurrent(c, a, "C01")
-		partGated(c, a, []func(*sut.Proc) *e2.Result{e2.G6SameKeyActionWriters}, 1)
+		partGated(c, a, []func(*sut.Proc) *e2.Result{e2.G6SameKeyActionWriters, e2.G4ModuleStateRace}, 1)
 		return a.finish(c)
 	}
 	registry["C02"] = func(c *check.Ctx) int {
@@ -168,7 +170,7 @@ func init() {
 	}
 	registry["C04"] = func(c *check.Ctx) int {
 		a := &acc{}
-		partE1(c, a, e1Batch{Profiles: []string{"refusal", "mixed", "component", "module"}, Histories: c.Pick(240, 2400), Steps: c.Pick(90, 160), MaxConns: 5, MaxSess: 3},
+		partE1(c, a, e1Batch{Profiles: []string{"refusal", "mixed", "component", "module", "owner"}, Histories: c.Pick(240, 2400), Steps: c.Pick(90, 160), MaxConns: 5, MaxSess: 3, ProbeAfterRefusal: 0.3},
 			"at least 5 distinct request kinds, at least one success and at least 3 distinct refusal reasons were answered and matched",
 			func(s *e1.Stats) bool { return len(s.Kinds) >= 5 && len(s.Accepted) >= 1 && distinctReasons(s) >= 3 })
 		reproDeferredCrossing(c, a)
